@@ -4,11 +4,23 @@
    Gen/LookupEnv.v (CodeGenEnvironment's filters/tests/globals), Gen/LookupInst.v (both instantiated with
    Generated/Gen_Lookup.v, which is regenerated from /repo on every run: pydsdl class forest, built-in template listings,
    bundled jinja2 names, per-language environment names, RESERVED_GLOBAL_ sets, T2 translation of the alias rule).
-   Quirk switches: q_shared (one memo for both walks), q_dt_only (_field_is_instance), q_unchecked (globals gate). *)
-From Verif Require Import Str Lookup LookupThm LookupEnv LookupEnvThm Gen_Lookup LookupInst LookupInstThm.
+   Quirk switches q_shared / q_dt_only / q_unchecked describe the code BEFORE fixes 1341207 / d35e4ad / 6db3613; the `_refuted` and
+   `_partial` theorems about them are kept as documentation.  The LIVE theorems are the full ones: C16_cache_transparent (memo keyed
+   by (walk, class)), C16_real_cache_transparent, C16_test_agrees_with_membership (T2-translated _field_is_instance),
+   C16_user_global_never_shadows_builtin (T2-translated gate). *)
+From Verif Require Import Str Lookup LookupThm LookupEnv LookupEnvThm Gen_Lookup LookupInst LookupInstThm Gen_Pin_c16_loader Gen_Pin_c16_env.
 From Coq Require Import Permutation.
 Import ListNotations.
 Open Scope N_scope.
+
+(* Shape pins: the hand models of DSDLTemplateLoader.__init__/get_source/type_to_template/_filter_template_list_by_suffix/
+   _type_to_template_internal + DSDLCodeGenerator.filter_type_to_template (Gen/Lookup.v) and of CodeGenEnvironment._add_to_environment/
+   add_test/_add_each_to_environment (Gen/LookupEnv.v) are valid for ONE shape of these functions; the pin files are regenerated from
+   /repo on every run and define pin_..._ok only when the normalised AST is the one the model was written for. *)
+Example C16_loader_shape_pinned : pin_c16_loader_ok = true.
+Proof. reflexivity. Qed.
+Example C16_env_shape_pinned : pin_c16_env_ok = true.
+Proof. reflexivity. Qed.
 
 (* ---------------------------------------------------------------------------------------------------------------
    A. Resolution.  EVERY class graph with single inheritance and a well-founded rank (no size bound), every pair of
@@ -25,7 +37,7 @@ Theorem C16_lookup_nearest :
 Proof. exact cold_lookup. Qed.
 Print Assumptions C16_lookup_nearest.
 
-(* (A2) with one memo per search path every sequence of lookups returns, at every position, what a fresh loader returns *)
+(* (A2) LIVE: the memo is keyed by (walk, class): every sequence of lookups returns, at every position, what a fresh loader returns *)
 Theorem C16_cache_transparent :
   forall (bases : cls -> list cls) (rank : cls -> nat),
     (forall c, (length (bases c) <= 1)%nat) -> (forall c p, In p (bases c) -> (rank p < rank c)%nat) ->
@@ -37,7 +49,7 @@ Proof.
 Qed.
 Print Assumptions C16_cache_transparent.
 
-(* (A3) the unchanged code shares ONE memo between the file-system walk and the package walk.  The full statement is false:
+(* (A3) documentation of the code before fix 1341207 (memo keyed by class only, shared by both walks).  The full statement was false:
    forest 1 -> 0 <- 2, no user template, built-in templates for 0 and 1; looking up 2 and then 1 yields the template of 0
    for class 1 (finding F-LOOKUP-MEMO-CROSS). *)
 Theorem C16_cache_transparent_refuted :
@@ -63,7 +75,7 @@ Theorem C16_cache_transparent_partial :
     run_seq bases true fs pkg fuel st0 cs = map (fun c => spec_lookup fs pkg (chain_n bases (rank c) c)) cs.
 Proof.
   intros bases rank H1 H2 fs pkg fuel cs Hf Hok.
-  exact (run_seq_sh bases rank H1 H2 fs pkg fuel Hok cs [] [] Hf (inv_sh_nil bases rank fs pkg)).
+  exact (run_seq_sh bases rank H1 H2 fs pkg fuel Hok cs st0 Hf (inv_sh_nil bases rank fs pkg)).
 Qed.
 Print Assumptions C16_cache_transparent_partial.
 
@@ -71,10 +83,28 @@ Print Assumptions C16_cache_transparent_partial.
    user-directory listing, either search policy and EVERY sequence of lookups on the real pydsdl hierarchy the unchanged
    loader returns the nearest-ancestor result. *)
 Theorem C16_shipped_sets_cache_transparent :
-  forall lang t pol dirs cs, In (lang, t) g_builtin_templates ->
-    p_lookup_seq true pol dirs (Some t) cs = p_spec_seq pol dirs (Some t) cs.
+  forall lang l pol dirs cs, In (lang, l) g_builtin_listings ->
+    p_lookup_seq true pol dirs (Some l) cs = p_spec_seq pol dirs (Some l) cs.
 Proof. exact p_shipped_transparent. Qed.
 Print Assumptions C16_shipped_sets_cache_transparent.
+
+(* (A5') LIVE, on the real pydsdl hierarchy: any raw directory listings (every kind of file name), either policy, EVERY sequence *)
+Theorem C16_real_cache_transparent :
+  forall pol dirs pkg cs, p_lookup_seq false pol dirs pkg cs = p_spec_seq pol dirs pkg cs.
+Proof. exact p_cache_transparent. Qed.
+Print Assumptions C16_real_cache_transparent.
+
+(* (A5'') the index built from a listing (suffix filter + Path.stem, both modelled): a class can only get a file whose NAME is
+   exactly <ClassName><TEMPLATE_SUFFIX> (so X.inc.j2, X.draft.j2, Xy.j2, x.j2, X.j2.bak, X.txt never count), and such a name does
+   count for every class of the regenerated forest *)
+Theorem C16_only_exact_template_names :
+  forall listing c p, tmap p_name (p_tset listing) c = Some p -> In p listing /\ basename p = p_name c ++ g_template_suffix.
+Proof. exact p_only_exact_names. Qed.
+Print Assumptions C16_only_exact_template_names.
+
+Theorem C16_class_names_indexed : class_names_index_ok = true.
+Proof. exact class_names_index_true. Qed.
+Print Assumptions C16_class_names_indexed.
 
 (* (A6) directory enumeration order: two listings with the same entries (unique stems) in ANY order give the same results
    for every sequence, memo discipline and start state. *)
@@ -88,7 +118,7 @@ Print Assumptions C16_enum_order_indep.
 
 (* (A7) get_source: a user template shadows the built-in template of the same name; the built-in one is the fallback *)
 Theorem C16_user_shadows_builtin :
-  forall fs pkg name, has_file fs name = true -> get_source (Some fs) pkg name = Some SrcFs.
+  forall (fs : list path) pkg name, has_file fs name = true -> get_source (Some fs) pkg name = Some SrcFs.
 Proof. exact get_source_user_first. Qed.
 Print Assumptions C16_user_shadows_builtin.
 
@@ -134,13 +164,21 @@ Theorem C16_aliases_disjoint_from_builtin_tests : aliases_disjointb = true.
 Proof. exact aliases_disjoint_true. Qed.
 Print Assumptions C16_aliases_disjoint_from_builtin_tests.
 
-(* (B2) test(root)(v) = "v is an instance of root, or v is an attribute whose data type is an instance of root" *)
+(* (B2) LIVE: the T2 translation of _field_is_instance, for ANY isinstance relation:
+   test(root)(v) = "v is an instance of root, or v is an attribute whose data type is an instance of root" *)
 Theorem C16_test_agrees_with_membership :
-  forall bases fuel attr root v, field_is_instance bases false fuel attr root v = spec_test bases fuel attr root v.
-Proof. exact test_agrees_conformant. Qed.
+  (forall isinst attr root vc vdt,
+     g_field_is_instance isinst attr root vc vdt = isinst vc root || (isinst vc attr && isinst vdt root)) /\
+  (forall name v, p_test false name v = p_test_spec name v).
+Proof. exact (conj g_field_is_instance_spec p_test_agrees). Qed.
 Print Assumptions C16_test_agrees_with_membership.
 
-(* the unchanged code looks only at .data_type when the value is an attribute: false for an attribute that is itself an
+Theorem C16_test_model_agrees_with_membership :
+  forall bases fuel attr root v, field_is_instance bases false fuel attr root v = spec_test bases fuel attr root v.
+Proof. exact test_agrees_conformant. Qed.
+Print Assumptions C16_test_model_agrees_with_membership.
+
+(* documentation of the code before fix d35e4ad: it looked only at .data_type when the value is an attribute: false for an attribute that is itself an
    instance of the root class (finding F-ATTR-TESTS-CONST-FALSE: `f is padding`, `attr is Field` are never true) *)
 Theorem C16_test_agrees_with_membership_refuted :
   exists bases fuel attr root v, field_is_instance bases true fuel attr root v <> spec_test bases fuel attr root v.
@@ -204,15 +242,24 @@ Proof.
 Qed.
 Print Assumptions C16_reserved_globals_protected.
 
-(* (C4) jinja's own default globals (range, dict, lipsum, cycler, joiner, namespace): with a gate that also checks the
-   names already present, they all survive every additional_globals ... *)
+(* (C4) LIVE: with the T2-translated gate of CodeGenEnvironment.__init__, jinja's own default globals (range, dict, lipsum, cycler,
+   joiner, namespace) survive every accepted additional_globals, and an additional global with such a name raises *)
 Theorem C16_user_global_never_shadows_builtin :
+  (forall lang user g n, init_globals p_gate_unchecked g_jinja_globals p_reserved g_init_written lang user = Some g ->
+     str_in n g_jinja_globals = true -> str_in n g_init_written = false -> str_in n lang = false -> dget g n = Some OBuiltin) /\
+  (forall lang n v, str_in n g_jinja_globals = true ->
+     init_globals p_gate_unchecked g_jinja_globals p_reserved g_init_written lang [(n, v)] = None).
+Proof. exact (conj p_user_global_never_shadows p_builtin_global_rejected). Qed.
+Print Assumptions C16_user_global_never_shadows_builtin.
+
+(* the same for any tables, given a gate that checks the names already present *)
+Theorem C16_checked_gate_never_shadows_builtin :
   forall defaults reserved written lang user g n, init_globals false defaults reserved written lang user = Some g ->
     str_in n defaults = true -> str_in n written = false -> str_in n lang = false -> dget g n = Some OBuiltin.
 Proof. exact builtin_globals_protected_checked. Qed.
-Print Assumptions C16_user_global_never_shadows_builtin.
+Print Assumptions C16_checked_gate_never_shadows_builtin.
 
-(* ... but the unchanged gate only checks the reserved names (finding F-ENV-GLOBALS) *)
+(* documentation of the code before fix 6db3613: the gate only checked the reserved names (F-ENV-GLOBALS) *)
 Theorem C16_user_global_shadows_builtin_refuted :
   forall defaults reserved written lang n,
     str_in n defaults = true -> str_in n reserved = false -> str_in n written = false -> str_in n lang = false ->
@@ -227,8 +274,8 @@ Theorem C16_user_global_shadows_builtin_partial :
 Proof. exact builtin_globals_protected_partial. Qed.
 Print Assumptions C16_user_global_shadows_builtin_partial.
 
-(* the witness of F-ENV-GLOBALS on the regenerated tables: `range` is a jinja default global and not reserved *)
-Example C16_range_is_unprotected :
-  str_in [114; 97; 110; 103; 101] g_jinja_globals = true /\ str_in [114; 97; 110; 103; 101] p_reserved = false /\
-  str_in [114; 97; 110; 103; 101] g_init_written = false.
+(* non-vacuity on the regenerated tables: `range` is a jinja default global that __init__ does not assign itself *)
+Example C16_range_is_protected :
+  str_in [114; 97; 110; 103; 101] g_jinja_globals = true /\ str_in [114; 97; 110; 103; 101] g_init_written = false /\
+  init_globals p_gate_unchecked g_jinja_globals p_reserved g_init_written [] [([114; 97; 110; 103; 101], 0)] = None.
 Proof. vm_compute. repeat split; reflexivity. Qed.
